@@ -331,9 +331,12 @@ func c07RacePass(r *core.Run, b *c07Build) {
 	var tasks []rt
 	rounds := core.Pick(r, 20, 100)
 	procs := core.Pick(r, 3, 8)
-	for _, sc := range []string{"S1", "S2", "S4", "S5", "S6", "S7", "S8", "S9", "S10", "S11"} {
-		for _, c := range []string{"core", "all+cjk+autoid+attr", "custom+autoid+attr+xhtml+hardwraps"} {
-			if sc == "S7" && c != "core" || c[0] == 'c' && c[1] == 'u' && sc != "S2" && sc != "S5" {
+	for _, sc := range []string{"S1", "S2", "S4", "S5", "S6", "S7", "S8", "S9", "S10", "S11", "S12"} {
+		for _, c := range []string{"core", "all+cjk+autoid+attr", "custom+autoid+attr+xhtml+hardwraps", "cjk-css3"} {
+			if sc == "S7" && c != "core" || c[0] == 'c' && c[1] == 'u' && sc != "S2" && sc != "S5" && sc != "S12" {
+				continue
+			}
+			if (c == "cjk-css3") != (sc == "S12") && !(sc == "S12" && c[0] == 'c' && c[1] == 'u') {
 				continue
 			}
 			for p := 0; p < procs; p++ {
